@@ -538,4 +538,6 @@ def sample_size(req):
     return {"size": len(sample_pack()[0])}
 
 
-HANDLERS = {"pack_sweep": pack_sweep, "graph": graph, "file_sweep": file_sweep, "sample_size": sample_size, "crafted_read": crafted_read, "bomb": bomb, "sample_size_full": sample_size_full}
+from impl_C04_thin import thin_graph
+
+HANDLERS = {"thin_graph": thin_graph, "pack_sweep": pack_sweep, "graph": graph, "file_sweep": file_sweep, "sample_size": sample_size, "crafted_read": crafted_read, "bomb": bomb, "sample_size_full": sample_size_full}
